@@ -89,6 +89,33 @@ pub broadcast axiom fn ax_neg_r_req(a: &BlsScalar)
 pub broadcast axiom fn ax_neg_r(a: &BlsScalar)
     ensures cv(#[trigger] a.neg_spec()) == (-cv(*a)) % R();
 
+
+// ---- compound assignment operators
+pub broadcast axiom fn ax_add_assign_v_req(a: BlsScalar, b: BlsScalar)
+    ensures #[trigger] a.add_assign_req(b);
+pub broadcast axiom fn ax_add_assign_v(a: BlsScalar, b: BlsScalar)
+    ensures cv(*(#[trigger] a.add_assign_spec(b))) == (cv(a) + cv(b)) % R();
+pub broadcast axiom fn ax_add_assign_r_req(a: BlsScalar, b: &BlsScalar)
+    ensures #[trigger] a.add_assign_req(b);
+pub broadcast axiom fn ax_add_assign_r(a: BlsScalar, b: &BlsScalar)
+    ensures cv(*(#[trigger] a.add_assign_spec(b))) == (cv(a) + cv(*b)) % R();
+pub broadcast axiom fn ax_sub_assign_v_req(a: BlsScalar, b: BlsScalar)
+    ensures #[trigger] a.sub_assign_req(b);
+pub broadcast axiom fn ax_sub_assign_v(a: BlsScalar, b: BlsScalar)
+    ensures cv(*(#[trigger] a.sub_assign_spec(b))) == (cv(a) - cv(b)) % R();
+pub broadcast axiom fn ax_sub_assign_r_req(a: BlsScalar, b: &BlsScalar)
+    ensures #[trigger] a.sub_assign_req(b);
+pub broadcast axiom fn ax_sub_assign_r(a: BlsScalar, b: &BlsScalar)
+    ensures cv(*(#[trigger] a.sub_assign_spec(b))) == (cv(a) - cv(*b)) % R();
+pub broadcast axiom fn ax_mul_assign_v_req(a: BlsScalar, b: BlsScalar)
+    ensures #[trigger] a.mul_assign_req(b);
+pub broadcast axiom fn ax_mul_assign_v(a: BlsScalar, b: BlsScalar)
+    ensures cv(*(#[trigger] a.mul_assign_spec(b))) == (cv(a) * cv(b)) % R();
+pub broadcast axiom fn ax_mul_assign_r_req(a: BlsScalar, b: &BlsScalar)
+    ensures #[trigger] a.mul_assign_req(b);
+pub broadcast axiom fn ax_mul_assign_r(a: BlsScalar, b: &BlsScalar)
+    ensures cv(*(#[trigger] a.mul_assign_spec(b))) == (cv(a) * cv(*b)) % R();
+
 pub broadcast axiom fn ax_from_u64(k: u64)
     ensures cv(#[trigger] <BlsScalar as FromSpec<u64>>::from_spec(k)) == k as int;
 
@@ -101,6 +128,7 @@ pub broadcast axiom fn ax_eq(a: BlsScalar, b: BlsScalar)
 
 pub broadcast group field_axioms {
     ax_cv_range, ax_sc, ax_from_u64, ax_from_refl, ax_eq,
+    ax_add_assign_v_req, ax_add_assign_v, ax_add_assign_r_req, ax_add_assign_r, ax_sub_assign_v_req, ax_sub_assign_v, ax_sub_assign_r_req, ax_sub_assign_r, ax_mul_assign_v_req, ax_mul_assign_v, ax_mul_assign_r_req, ax_mul_assign_r,
     ax_add_vv_req, ax_add_vv, ax_add_rr_req, ax_add_rr, ax_add_vr_req, ax_add_vr, ax_add_rv_req, ax_add_rv, ax_sub_vv_req, ax_sub_vv, ax_sub_rr_req, ax_sub_rr, ax_sub_vr_req, ax_sub_vr, ax_sub_rv_req, ax_sub_rv, ax_mul_vv_req, ax_mul_vv, ax_mul_rr_req, ax_mul_rr, ax_mul_vr_req, ax_mul_vr, ax_mul_rv_req, ax_mul_rv, ax_neg_v_req, ax_neg_v, ax_neg_r_req, ax_neg_r,
 }
 
@@ -119,6 +147,12 @@ pub axiom fn field_obeys()
         <&BlsScalar as MulSpec<&BlsScalar>>::obeys_mul_spec(),
         <BlsScalar as MulSpec<&BlsScalar>>::obeys_mul_spec(),
         <&BlsScalar as MulSpec<BlsScalar>>::obeys_mul_spec(),
+        <BlsScalar as AddAssignSpec<BlsScalar>>::obeys_add_assign_spec(),
+        <BlsScalar as AddAssignSpec<&BlsScalar>>::obeys_add_assign_spec(),
+        <BlsScalar as SubAssignSpec<BlsScalar>>::obeys_sub_assign_spec(),
+        <BlsScalar as SubAssignSpec<&BlsScalar>>::obeys_sub_assign_spec(),
+        <BlsScalar as MulAssignSpec<BlsScalar>>::obeys_mul_assign_spec(),
+        <BlsScalar as MulAssignSpec<&BlsScalar>>::obeys_mul_assign_spec(),
         <BlsScalar as NegSpec>::obeys_neg_spec(),
         <&BlsScalar as NegSpec>::obeys_neg_spec(),
         <BlsScalar as FromSpec<u64>>::obeys_from_spec(),
